@@ -114,3 +114,19 @@ def host_dropout(g):
     attrs = {} if ratio is None else {"ratio": ratio}
     g.features.add("planted:dropout:attr_form")
     return g.emit("Dropout", [x], n_out=nout, **attrs)
+
+
+def plant_if_scopes(g):
+    """Two or three Ifs at one level whose branches own initializers and node outputs with the SAME names (disjoint scopes), conditions
+    constant / folded / dynamic: inlining or lifting anything out of one branch must not capture the other scopes' names."""
+    if g.depth:
+        return None
+    outs = []
+    n = g.pick([2, 2, 3])
+    for i in range(n):
+        r = g.g_if(how=g.pick(["const", "const", "folded", "dynamic"]), branch=["binary", "binary", "const"], reuse=True)
+        if r:
+            outs.extend(r)
+    if len(outs) >= 2:
+        g.features.add("planted:if_scopes")
+    return outs or None
